@@ -1951,11 +1951,32 @@ def check_property(pid, tier, seed, do_lean=True, write_evidence=True):
     kinds = collections.Counter()
     fams = collections.Counter()
     views = collections.Counter()
+    windows, depth, lengths, modes, panics, outcomes = (collections.Counter() for _ in range(6))
+    clones = 0
     for j, f in results:
         kinds[j.kind + (":" + j.rel if isinstance(j, Relation) else "")] += 1
         e = getattr(j, "e", None) or getattr(j, "outer", None)
         if e:
             views[e[0]] += 1
+            w = gen.window_of(e)
+            windows["1" if w == 1 else "2" if w == 2 else "3" if w == 3 else "4-8" if w <= 8 else "9-33" if w <= 33 else "34-128" if w <= 128 else ">128"] += 1
+            depth[str(min(len(gen.tree_names(e)), 5)) + ("+" if len(gen.tree_names(e)) >= 5 else "")] += 1
+        fam = getattr(j, "fam", None) or (getattr(j, "params", {}) or {}).get("fam")
+        if fam:
+            fams[fam] += 1
+        L = len(getattr(j, "xs", None) or (getattr(j, "streams", None) or [[]])[0] or (getattr(j, "ops", None) if not callable(getattr(j, "ops", None)) else None) or [])
+        lengths["<=8" if L <= 8 else "9-40" if L <= 40 else "41-400" if L <= 400 else "401-5000" if L <= 5000 else ">5000"] += 1
+        modes[getattr(j, "mode", getattr(j, "fmode", "-"))] += 1
+        if getattr(j, "hop", None) is not None or (getattr(j, "params", {}) or {}).get("hop") is not None:
+            clones += 1
+        for out_lines in (getattr(j, "_impl", None) or []):
+            for l in out_lines:
+                if l[:1] == "P":
+                    panics[l[2:]] += 1
+                elif l[:1] == "N":
+                    outcomes["none"] += 1
+                elif l[:1] == "S":
+                    outcomes["some"] += 1
         k = None
         try:
             k = j.nontrivial_key(j._impl)
@@ -2054,6 +2075,10 @@ def check_property(pid, tier, seed, do_lean=True, write_evidence=True):
         correspondence_lines=lines, bit_identical_lines=bit,
         f64_value_differences_that_vanish_in_exact_arithmetic=sum(1 for j, f in results if getattr(j, "rounding_only", False)),
         job_kinds=dict(kinds), views=dict(views), samples=samples,
+        input_distribution=dict(window_lengths=dict(windows), tree_nodes=dict(depth), stream_lengths=dict(lengths), scalar_modes=dict(modes),
+                                labelled_stream_families=dict(fams), jobs_continued_on_a_clone=clones,
+                                implementation_outputs=dict(outcomes), implementation_panics_by_kind=dict(panics),
+                                note="measured on this run: what the implementation was fed and what it answered (relassert build)"),
         known_findings_replayed=len(known_lines), failures_matching_known_findings=len(known_hits),
         implementation_line_coverage=impl_cov,
         differences_on_out_of_domain_inputs_recorded_not_reported=info_differences,
